@@ -42,7 +42,8 @@ Print Assumptions C09_eos_sync_idempotent.
    - [coherent] / [Good] start states: any synchronized state whose coordinates will be recomputed or are current; a
      synchronized state with a stale cache and no recalculation pending is what safe_mode = 0 documents as user error.
    - an EMPTY simulation (N = 0) is outside the model (it has no notion of N): the library dereferences particles[0] in
-     step() for WHFast / SABA / MERCURIUS (open finding step-without-particles-crashes); synchronize alone is harmless.
+     step() for WHFast / SABA / MERCURIUS until bc4b9bb (reb_integrator_part1/part2 now return for N = 0, only time advances;
+     no operator is called: the N = 0 corner of the searcher is the regression).
    - dt = 0, dt < 0, -0.0, subnormal / huge / non-finite dt and coordinates, N = 1, 2, massless or coincident bodies,
      e -> 1 and hyperbolic orbits: nothing in theorems (b), (c) excludes them (no law is used: bitwise, NaN included;
      exercised by the searcher's corner scenarios); theorems (a) need the flow laws, which for the concrete operators
